@@ -393,10 +393,13 @@ def d2c_echo_test(chk: Check) -> None:
         raise AnalysisError("decrypt tool invocation not found")
     inp = {k.arg: k.value for k in runs[0].keywords}.get("input")
     d = reaching_def(inp.id, runs[0]) if isinstance(inp, ast.Name) else inp
-    if not (isinstance(d, ast.Call) and isinstance(d.func, ast.Attribute)
-            and d.func.attr == "encode"):
+    if isinstance(d, ast.Call) and isinstance(d.func, ast.Attribute) \
+            and d.func.attr == "encode":
+        sent = src(d.func.value)
+    elif isinstance(inp, ast.Name):
+        sent = inp.id       # handed over as text (C19-D8 judges the pipes)
+    else:
         raise AnalysisError("text sent to the decrypt tool not found")
-    sent = src(d.func.value)
     top: ast.AST = runs[0]
     while isinstance(parent(top), (ast.Attribute, ast.Call)) and \
             (getattr(parent(top), "value", None) is top or
@@ -424,6 +427,48 @@ def d2c_echo_test(chk: Check) -> None:
             chk.fail("C19-D2c", fi, t, src(t),
                      "the output is compared with `{}`, but what was sent "
                      "to the tool is `{}`".format(other, sent))
+
+
+def d8_byte_pipes(chk: Check) -> None:
+    """The plaintext travels between yamlpath and the eyaml tool through
+    pipes.  Byte pipes hand it through verbatim; text-mode pipes
+    (`universal_newlines` / `text` / `encoding` / `errors`) translate every
+    CR LF and lone CR read from the tool into LF and decode with the
+    locale's codec: the value re-encrypted during a rotation is then the
+    encryption of another plaintext."""
+    prog = chk.prog
+    chk.rule("C19-D8", "every invocation of the eyaml tool exchanges bytes "
+             "(no text-mode pipe option), encoded from / decoded to text "
+             "explicitly", floor=2)
+    text_opts = ("universal_newlines", "text", "encoding", "errors")
+    n = 0
+    for fi in prog.funcs_in("yamlpath/eyaml/eyamlprocessor.py"):
+        for c in walk_local(fi.node):
+            if not (isinstance(c, ast.Call) and src(c.func) in
+                    ("run", "subprocess.run", "Popen", "subprocess.Popen",
+                     "check_output", "subprocess.check_output")):
+                continue
+            kws = {k.arg: k.value for k in c.keywords}
+            if "input" not in kws and "stdout" not in kws:
+                continue
+            n += 1
+            bad = [o for o in text_opts if o in kws and not (
+                isinstance(kws[o], ast.Constant) and
+                kws[o].value in (False, None))]
+            if None in kws:
+                bad.append("**" + src(kws[None]))
+            text = "{}: {}(...)".format(fi.short, src(c.func))
+            if bad:
+                chk.fail("C19-D8", fi, c, text,
+                         "the pipe to the eyaml tool is opened in text mode "
+                         "({}): carriage returns in a secret are rewritten "
+                         "to line feeds on the way back and the rotated "
+                         "value encrypts another plaintext".format(
+                             ", ".join(bad)))
+            else:
+                chk.ok("C19-D8", fi, c, text, "byte pipes")
+    if n < 2:
+        raise AnalysisError("eyaml tool invocations not found")
 
 
 def d7_keys_differ(chk: Check) -> None:
@@ -587,13 +632,113 @@ def d6_handlers(chk: Check) -> None:
                          "stays 0")
 
 
+def d3b_skip_key_is_own_anchor(chk: Check) -> None:
+    """"Rotated once and stays shared" is keyed on the anchor of the
+    encrypted *value itself*: two aliases of one anchored scalar are one
+    value.  An ancestor's anchor identifies a container, not a value: keyed
+    on it, the second secret of an anchored hash is taken for "already
+    rotated" and keeps its old-key ciphertext while the run exits 0."""
+    from sa.coords import reaching_def
+    prog = chk.prog
+    chk.rule("C19-D3b", "the name tested against / added to the seen-"
+             "anchors record is the anchor of the matched node itself, on "
+             "every definition", floor=1)
+    main = c17.fn(prog, ROTATE, "main")
+    tests = [t for t in walk_local(main.node) if isinstance(t, ast.Compare)
+             and len(t.ops) == 1 and isinstance(t.ops[0], (ast.In, ast.NotIn))
+             and "seen" in src(t.comparators[0]) and
+             isinstance(t.left, ast.Name)]
+    if not tests:
+        return      # C19-D3 reports a missing / misplaced skip test
+    name = tests[0].left.id
+    loop = [a for a in ancestors(tests[0]) if isinstance(a, ast.For)][0]
+    coord = src(loop.target)
+    defs = [a for a in walk_local(loop) if isinstance(a, ast.Assign) and
+            src(a.targets[0]) == name]
+    if not defs:
+        raise AnalysisError("definition of the skip key not found")
+    for d in defs:
+        v = d.value
+        ok = False
+        if isinstance(v, ast.Call) and \
+                src(v.func).endswith("get_node_anchor") and len(v.args) == 1:
+            a0 = v.args[0]
+            if src(a0) == coord + ".node":
+                ok = True
+            elif isinstance(a0, ast.Name):
+                dd = reaching_def(a0.id, d)
+                ok = dd is not None and src(dd) == coord + ".node"
+        text = "{} = {}".format(name, src(v)[:50])
+        if ok:
+            chk.ok("C19-D3b", main, d, text, "anchor of the matched node")
+        else:
+            chk.fail("C19-D3b", main, d, text,
+                     "the skip key is not the matched value's own anchor: "
+                     "values that merely live under the same anchored "
+                     "container are taken for one value and all but the "
+                     "first keep their old ciphertext")
+
+
+def d9_whole_file_writes_truncate(chk: Check, rid: str = "C19-D9",
+                                  relpaths=(ROTATE,)) -> None:
+    """A file that receives a whole dumped document is opened with a
+    truncating mode.  Opened 'r+' (or 'a'), a document shorter than the old
+    file leaves the old tail behind it: stale or unparsable content after a
+    run that exits 0."""
+    prog = chk.prog
+    chk.rule(rid, "every file that a whole document is dumped into is "
+             "opened in a truncating mode ('w' / 'wb' / 'w+')", floor=1)
+    n = 0
+    for fi in prog.functions.values():
+        if fi.module.relpath not in relpaths:
+            continue
+        for w in walk_local(fi.node):
+            if not isinstance(w, ast.With):
+                continue
+            for item in w.items:
+                c = item.context_expr
+                if not (isinstance(c, ast.Call) and src(c.func) == "open" and
+                        item.optional_vars is not None):
+                    continue
+                handle = src(item.optional_vars)
+                dumps = [x for st in w.body for x in ast.walk(st)
+                         if isinstance(x, ast.Call) and (
+                             (src(x.func).endswith(".dump") and any(
+                                 src(a) == handle for a in x.args)) or
+                             src(x.func) in (handle + ".write",
+                                             handle + ".writelines"))]
+                if not dumps:
+                    continue
+                mode = c.args[1] if len(c.args) > 1 else next(
+                    (k.value for k in c.keywords if k.arg == "mode"), None)
+                n += 1
+                text = "{}: open({}, {})".format(
+                    fi.short, src(c.args[0])[:20] if c.args else "?",
+                    src(mode) if mode is not None else "<default 'r'>")
+                if isinstance(mode, ast.Constant) and \
+                        isinstance(mode.value, str) and \
+                        mode.value.startswith("w"):
+                    chk.ok(rid, fi, c, text, "truncates")
+                else:
+                    chk.fail(rid, fi, c, text,
+                             "the file is not truncated before the document "
+                             "is written: when the new text is shorter, the "
+                             "tail of the old file survives behind it")
+    if n < 1:
+        raise AnalysisError("no whole-document write found in {}".format(
+            relpaths))
+
+
 def run(chk: Check) -> None:
     model = CliModel(chk.prog)
     d1_marker(chk)
     d2_d3(chk)
     d2b_fidelity(chk)
     d2c_echo_test(chk)
+    d8_byte_pipes(chk)
     d7_keys_differ(chk)
     d4_changed(chk, model)
     d5_discovery(chk)
     d6_handlers(chk)
+    d3b_skip_key_is_own_anchor(chk)
+    d9_whole_file_writes_truncate(chk)
